@@ -284,12 +284,16 @@ def run(ctx, chk):
     acc = freshness_acceptor(ctx)
     acc_src = (acc[0].pattern, acc[1].pattern, acc[1].flags)
     # _generate_relative_translations conformance
-    g = ctx.ix.func("dateparser.languages.locale:Locale._generate_relative_translations")
-    t = " ".join(ast.unparse(g.node).split())
+    from .util import relative_pattern_model
     import re as _re
-    for frag in (r"(\w+)\.replace\('\(\\\\d\+', '\(\?P<n>\\\\d\+'\)", r"'\^\(\?:\{\}\)\$'\.format\((\w+)\)", r"sorted\((\w+), key=len, reverse=True\)", r"(\w+)\[(\w+)\] = (\w+)"):
-        if not _re.search(frag, t):
-            raise AnalysisError("C06.model", "_generate_relative_translations shape changed (missing %r)" % frag)
+    m_ = relative_pattern_model(ctx)
+    if m_ is None:
+        raise AnalysisError("C06.model", "_generate_relative_translations: no single re.compile(<wrapper around the joined patterns>, <flags>) found")
+    if m_["template"] != "^(?:{})$" or m_["flags"] != {"U", "I"}:
+        raise AnalysisError("C06.model", "_generate_relative_translations compiles %r with flags %s; the model has '^(?:{})$' with U|I"
+                            % (m_["template"], sorted(m_["flags"])))
+    if not _re.fullmatch(r"'\|'\.join\(sorted\((\w+), key=len, reverse=True\)\)\.replace\('\(\\\\d\+', '\(\?P<n>\\\\d\+'\)", m_["body"]):
+        raise AnalysisError("C06.model", "_generate_relative_translations shape changed: the wrapper is filled with %s" % m_["body"][:120])
     todo = [(ctx.repo.root, ctx.repo.overlay, lang, loc, acc_src) for lang, loc in ld.all_locales()]
     jobs = int(os.environ.get("VERIF_JOBS", "16"))
     results = []
